@@ -1,4 +1,4 @@
-SPECIFICATION SpecMC
+SPECIFICATION SpecAll
 CONSTANT AllModes = FALSE
-INVARIANTS MC_C01 MC_C02 NeverForwardedWhileBlocked
+INVARIANTS MC_C01 MC_C02 NeverForwardedWhileBlocked HistInstalled HistVerdict HistRepeat
 PROPERTY UpstreamOnlyWithoutResponse
